@@ -119,6 +119,9 @@ class IntervalRange(MetaHandlerGenerator):
         start_position = random.randint(0, self.maximum_top_limit - range_length)
         return (start_position, start_position + range_length)
 
+    def __repr__(self):
+        return f"IntervalRange[{self.minimum_length},{self.maximum_length},{self.maximum_top_limit}]"
+
     def validate(self, v) -> bool:
         length = v[1] - v[0]
         return self.minimum_length <= length <= self.maximum_length and 0 <= v[0] and v[1] <= self.maximum_top_limit
